@@ -235,6 +235,29 @@ type Endpoint struct {
 	Offsets  []int64
 	Selector func(sql string) int
 	Complex  bool // TraceQL: answer the complexity estimate with a large number
+	// Prometheus query / query_range: the EXACT window of every selector (see promHint). When set, each recorded statement
+	// is judged against the hint window of its selector with no widening at all (a slot table such as metrics_15s is
+	// judged at slot granularity by the oracle itself)
+	PromSels []PromSel
+	Instant  bool
+}
+
+// PromSel: how far selector k reaches back. The engine (promql.Engine.getTimeRangesForSelector of the vendored
+// Prometheus) asks the storage for [start - back - offset, end - offset] in milliseconds, both ends included, where back
+// is the range of a matrix selector (plus the range of an enclosing subquery and the lookback of its inner selector) or
+// the lookback delta of 5 minutes; PromQueryRangeController snaps start down and end up to 15 s first.
+type PromSel struct{ BackMs, OffsetMs int64 }
+
+// promHint: hints.Start / hints.End (ms) of selector k for the window w
+func promHint(ep *Endpoint, w Window, k int) (int64, int64) {
+	ps := ep.PromSels[k]
+	if ep.Instant {
+		t := w.ToNs / 1e9
+		return t*1000 - ps.BackMs - ps.OffsetMs, t*1000 - ps.OffsetMs
+	}
+	s := w.FromNs / 1e9 / 15 * 15
+	e := (w.ToNs/1e9 + 14) / 15 * 15
+	return s*1000 - ps.BackMs - ps.OffsetMs, e*1000 - ps.OffsetMs
 }
 
 func get(path string, kv ...string) *http.Request {
@@ -289,7 +312,7 @@ func promRange(name, q string, stepS string, widen int64) Endpoint {
 			step = (m + 14) / 15 * 15
 		}
 		return get("/api/v1/query_range", "query", q, "start", sec(w.FromNs), "end", sec(w.ToNs), "step", fmt.Sprint(step)), widen + 15*second, 30 * second
-	}}
+	}, PromSels: []PromSel{{BackMs: widen / 1e6}}}
 }
 
 // which selector of `... {a="b"} ... {a="c"} offset ...` a statement belongs to: the select carries the matcher
@@ -305,7 +328,55 @@ func promMulti(name, q string, stepS string, widen int64, offsets []int64) Endpo
 	e := promRange(name, q, stepS, widen)
 	e.Offsets = offsets
 	e.Selector = promSelector
+	e.PromSels = nil
+	for _, o := range offsets {
+		e.PromSels = append(e.PromSels, PromSel{BackMs: widen / 1e6, OffsetMs: o / 1e6})
+	}
 	return e
+}
+
+// GenProm: the parameters of a generated /api/v1/query_range request: one selector up{a="b"} under a function, with a
+// range and an offset in MILLISECONDS (sub-second durations move hints.Start off the whole second) and a step in seconds
+type GenProm struct {
+	Func     string `json:"func"`
+	RangeMs  int64  `json:"range_ms"`
+	OffsetMs int64  `json:"offset_ms"`
+	Step     int64  `json:"step"`
+}
+
+var curPGen *GenProm
+
+var promRangeFuncs = map[string]bool{"sum_over_time": true, "avg_over_time": true, "max_over_time": true, "count_over_time": true,
+	"last_over_time": true, "quantile_over_time": true, "stddev_over_time": true, "rate": true, "delta": true, "increase": true}
+
+func (g *GenProm) query() string {
+	sel := `up{a="b"}`
+	if g.RangeMs > 0 {
+		sel += fmt.Sprintf("[%dms]", g.RangeMs)
+	}
+	if g.OffsetMs > 0 {
+		sel += fmt.Sprintf(" offset %dms", g.OffsetMs)
+	}
+	switch {
+	case g.Func == "":
+		return sel
+	case g.Func == "quantile_over_time":
+		return "quantile_over_time(0.5, " + sel + ")"
+	default:
+		return g.Func + "(" + sel + ")"
+	}
+}
+
+func genProm(r *rand.Rand) *GenProm {
+	funcs := []string{"", "", "sum_over_time", "avg_over_time", "max_over_time", "count_over_time", "last_over_time",
+		"quantile_over_time", "stddev_over_time", "rate", "delta", "increase", "sum", "avg", "abs", "timestamp"}
+	g := &GenProm{Func: funcs[r.Intn(len(funcs))]}
+	if promRangeFuncs[g.Func] {
+		g.RangeMs = []int64{15000, 14999, 60000, 89500, 90001, 29250, 300000, 1000, 74500, 45001}[r.Intn(10)]
+	}
+	g.OffsetMs = []int64{0, 0, 0, 500, 1, 999, 14500, 899500, 15000, 86400250, 30500, 599001}[r.Intn(12)]
+	g.Step = []int64{5, 14, 15, 15, 16, 30, 60, 60}[r.Intn(8)]
+	return g
 }
 
 const traceID = "0123456789abcdef0123456789abcdef"
@@ -407,10 +478,22 @@ func endpoints() []Endpoint {
 		promMulti("prom_range_offset_36h", `up{a="b"} - up{a="c"} offset 36h`, "60", 5*minute, []int64{0, 36 * 60 * minute}),
 		promMulti("prom_range_rate_offset_1w", `rate(up{a="b"}[5m]) / rate(up{a="c"}[5m] offset 1w)`, "60", 5*minute, []int64{0, 7 * 24 * 60 * minute}),
 		promRange("prom_range_subquery", `max_over_time(up{a="b"}[30m:5m])`, "60", 35*minute),
-		{Name: "prom_instant_offset_1d", Api: "metrics", Offsets: []int64{0, 24 * 60 * minute}, Selector: promSelector, Build: func(w Window) (*http.Request, int64, int64) {
-			return get("/api/v1/query", "query", `up{a="b"} or up{a="c"} offset 1d`, "time", sec(w.ToNs)), 5*minute + 15*second, 15 * second
+		// sub-second durations in the query text: hints.Start = 15-second boundary + 500 ms although start / end / step are whole
+		// seconds (the roll-up table must not be chosen: seeded change C13-f)
+		promRange("prom_range_subsec_range", `sum_over_time(up{a="b"}[89500ms])`, "60", 89500*1e6),
+		promMulti("prom_range_subsec_offset", `up{a="b"} offset 14m59s500ms`, "15", 5*minute, []int64{899500 * 1e6}),
+		{Name: "prom_gen", Api: "metrics", PromSels: []PromSel{{}}, Build: func(w Window) (*http.Request, int64, int64) {
+			step := curPGen.Step
+			if m := (w.ToNs-w.FromNs)/second/10000 + 1; m > step {
+				step = (m + 14) / 15 * 15
+			}
+			return get("/api/v1/query_range", "query", curPGen.query(), "start", sec(w.FromNs), "end", sec(w.ToNs), "step", fmt.Sprint(step)), 0, 0
 		}},
-		{Name: "prom_instant", Api: "metrics", Build: func(w Window) (*http.Request, int64, int64) {
+		{Name: "prom_instant_offset_1d", Api: "metrics", Offsets: []int64{0, 24 * 60 * minute}, Selector: promSelector, Instant: true,
+			PromSels: []PromSel{{BackMs: 300000}, {BackMs: 300000, OffsetMs: 86400000}}, Build: func(w Window) (*http.Request, int64, int64) {
+				return get("/api/v1/query", "query", `up{a="b"} or up{a="c"} offset 1d`, "time", sec(w.ToNs)), 5*minute + 15*second, 15 * second
+			}},
+		{Name: "prom_instant", Api: "metrics", Instant: true, PromSels: []PromSel{{BackMs: 300000}}, Build: func(w Window) (*http.Request, int64, int64) {
 			return get("/api/v1/query", "query", `up{a="b"}`, "time", sec(w.ToNs)), 5*minute + 15*second, 15 * second
 		}},
 		{Name: "tempo_trace", Api: "traces", Build: func(w Window) (*http.Request, int64, int64) {
@@ -532,38 +615,42 @@ type ReqCase struct {
 	Cluster bool   `json:"cluster"`
 	Schema  string `json:"schema"` // new | old
 	Window
-	Gen *GenTempo `json:"gen,omitempty"` // tempo_search_gen: the generated parameters
+	Gen  *GenTempo `json:"gen,omitempty"`  // tempo_search_gen: the generated parameters
+	PGen *GenProm  `json:"pgen,omitempty"` // prom_gen: the generated parameters
 }
 
 type Line struct {
-	Kind     string `json:"kind"` // req | stmt
-	ID       int    `json:"id"`
-	Req      int    `json:"req"`
-	Ep       string `json:"ep"`
-	Api      string `json:"api"`
-	Zone     int    `json:"zone"`
-	Cluster  bool   `json:"cluster"`
-	Schema   string `json:"schema"`
-	Class    string `json:"class"`
-	FromNs   int64  `json:"from_ns"`
-	ToNs     int64  `json:"to_ns"`
-	WidenLo  int64  `json:"widen_lo"`
-	WidenHi  int64  `json:"widen_hi"`
-	NoWindow bool   `json:"no_window"`
-	Status   int    `json:"status,omitempty"`
-	NStmts   int    `json:"nstmts,omitempty"`
-	URL      string `json:"url,omitempty"`
-	Idx      int    `json:"idx,omitempty"`
-	Sel      int    `json:"sel,omitempty"` // which selector of a multi-window request the statement belongs to
-	SQL      string `json:"sql,omitempty"`
-	ParseErr string `json:"parse_err,omitempty"`
-	TreeCoq  string `json:"tree_coq,omitempty"` // only for the first statement of every (endpoint, layout) pair
-	TreeSx   string `json:"tree_sx,omitempty"`
-	Panic    string `json:"panic,omitempty"`
-	Body     string `json:"body,omitempty"` // start of the response body of a failed request
-	WinFrom  int64  `json:"win_from_ns"`    // the window of the generated case (before the API's granularity)
-	WinTo    int64  `json:"win_to_ns"`
+	Kind     string    `json:"kind"` // req | stmt
+	ID       int       `json:"id"`
+	Req      int       `json:"req"`
+	Ep       string    `json:"ep"`
+	Api      string    `json:"api"`
+	Zone     int       `json:"zone"`
+	Cluster  bool      `json:"cluster"`
+	Schema   string    `json:"schema"`
+	Class    string    `json:"class"`
+	FromNs   int64     `json:"from_ns"`
+	ToNs     int64     `json:"to_ns"`
+	WidenLo  int64     `json:"widen_lo"`
+	WidenHi  int64     `json:"widen_hi"`
+	NoWindow bool      `json:"no_window"`
+	Status   int       `json:"status,omitempty"`
+	NStmts   int       `json:"nstmts,omitempty"`
+	URL      string    `json:"url,omitempty"`
+	Idx      int       `json:"idx,omitempty"`
+	Sel      int       `json:"sel,omitempty"` // which selector of a multi-window request the statement belongs to
+	SQL      string    `json:"sql,omitempty"`
+	ParseErr string    `json:"parse_err,omitempty"`
+	TreeCoq  string    `json:"tree_coq,omitempty"` // only for the first statement of every (endpoint, layout) pair
+	TreeSx   string    `json:"tree_sx,omitempty"`
+	Panic    string    `json:"panic,omitempty"`
+	Body     string    `json:"body,omitempty"` // start of the response body of a failed request
+	WinFrom  int64     `json:"win_from_ns"`    // the window of the generated case (before the API's granularity)
+	WinTo    int64     `json:"win_to_ns"`
 	Gen      *GenTempo `json:"gen,omitempty"`
+	PGen     *GenProm  `json:"pgen,omitempty"`
+	HintFrom int64     `json:"hint_from_ms,omitempty"` // Prometheus: hints.Start / hints.End of the statement's selector
+	HintTo   int64     `json:"hint_to_ms,omitempty"`
 }
 
 var routers = map[string]*mux.Router{}
@@ -627,6 +714,7 @@ func main() {
 	only := flag.String("only", "", "comma-separated endpoint names (default: all)")
 	tails := flag.Int("tails", 2, "how many live-tail requests to run (each waits for the one-second ticker)")
 	tempoGen := flag.Int("tempo-gen", 0, "additional generated /api/search requests (random tags, conditions, limit, durations)")
+	promGen := flag.Int("prom-gen", 0, "additional generated /api/v1/query_range requests (function, range / offset in milliseconds, step)")
 	fl := hx.ParseFlags()
 
 	config.Cloki = clconfig.New(clconfig.CLOKI_READER, nil, "", "")
@@ -723,7 +811,7 @@ func main() {
 							if len(onlySet) > 0 && !onlySet[ep.Name] {
 								continue
 							}
-							if ep.Name == "tempo_search_gen" {
+							if ep.Name == "tempo_search_gen" || ep.Name == "prom_gen" {
 								continue // only with generated parameters, below
 							}
 							if ep.WS {
@@ -750,6 +838,10 @@ func main() {
 			cases = append(cases, ReqCase{Ep: "tempo_search_gen", Zone: 0, Cluster: gr.Intn(2) == 0, Schema: "new",
 				Window: wins[gr.Intn(len(wins))], Gen: genTempo(gr)})
 		}
+		for i := 0; i < *promGen; i++ {
+			cases = append(cases, ReqCase{Ep: "prom_gen", Zone: 0, Cluster: gr.Intn(2) == 0, Schema: "new",
+				Window: wins[gr.Intn(len(wins))], PGen: genProm(gr)})
+		}
 	}
 	out := hx.OpenOut(fl.Out)
 	coqDone := map[string]bool{}
@@ -763,6 +855,17 @@ func main() {
 		curGen = c.Gen
 		if ep.Name == "tempo_search_gen" && curGen == nil {
 			curGen = &GenTempo{}
+		}
+		curPGen = c.PGen
+		if ep.Name == "prom_gen" {
+			if curPGen == nil {
+				curPGen = &GenProm{Step: 15}
+			}
+			back := curPGen.RangeMs
+			if back == 0 {
+				back = 300000
+			}
+			ep.PromSels = []PromSel{{BackMs: back, OffsetMs: curPGen.OffsetMs}}
 		}
 		req, wlo, whi := ep.Build(w)
 		from, to := w.FromNs/ep.Gran*ep.Gran, w.ToNs/ep.Gran*ep.Gran
@@ -790,7 +893,12 @@ func main() {
 			wlo, whi = t1.Sub(t0).Nanoseconds()+2*second, t1.Sub(t0).Nanoseconds()+2*second
 		}
 		base := Line{Req: ri, Ep: ep.Name, Api: ep.Api, Zone: c.Zone, Cluster: c.Cluster, Schema: c.Schema, Class: w.Class,
-			FromNs: from, ToNs: to, WidenLo: wlo, WidenHi: whi, NoWindow: ep.NoWindow, WinFrom: w.FromNs, WinTo: w.ToNs, Gen: c.Gen}
+			FromNs: from, ToNs: to, WidenLo: wlo, WidenHi: whi, NoWindow: ep.NoWindow, WinFrom: w.FromNs, WinTo: w.ToNs, Gen: c.Gen, PGen: c.PGen}
+		if ep.PromSels != nil {
+			// the exact window of the (first) selector: [hints.Start, hints.End] in ms, both ends included
+			hs, he := promHint(ep, w, 0)
+			base.FromNs, base.ToNs, base.WidenLo, base.WidenHi, base.HintFrom, base.HintTo = hs*1e6, he*1e6+1, 0, 999998, hs, he
+		}
 		l := base
 		l.Kind, l.ID, l.Status, l.NStmts, l.URL, l.Panic, l.Body = "req", id, status, len(stmts), req.URL.RequestURI(), pnc, lastBody
 		id++
@@ -800,7 +908,14 @@ func main() {
 			l.Kind, l.ID, l.Idx, l.SQL = "stmt", id, k, s
 			if ep.Selector != nil {
 				l.Sel = ep.Selector(s)
+				if l.Sel >= len(ep.Offsets) {
+					l.Sel = len(ep.Offsets) - 1
+				}
 				l.FromNs, l.ToNs = from-ep.Offsets[l.Sel], to-ep.Offsets[l.Sel]
+			}
+			if ep.PromSels != nil {
+				hs, he := promHint(ep, w, l.Sel)
+				l.FromNs, l.ToNs, l.HintFrom, l.HintTo = hs*1e6, he*1e6+1, hs, he
 			}
 			id++
 			node, err := sqlparse.Parse(s)
